@@ -129,6 +129,17 @@ func (g *Gen) Meta() map[string]any {
 	if g.R.Chance(0.5) {
 		m["content"] = g.Text()
 	}
+	if g.R.Chance(0.15) {
+		// values that no secondary index covers: nested object, null, mixed list
+		switch g.R.Intn(3) {
+		case 0:
+			m["obj"] = map[string]any{"a": float64(g.R.Intn(5)), "b": []any{vkit.Pick(g.R, g.Words)}, "c": map[string]any{"d": g.R.Chance(0.5)}}
+		case 1:
+			m["obj"] = nil
+		default:
+			m["obj"] = []any{float64(g.R.Intn(5)), vkit.Pick(g.R, g.Words), g.R.Chance(0.5), nil}
+		}
+	}
 	return m
 }
 
